@@ -40,6 +40,10 @@ class Exhausted(Exception):
   pass
 
 
+class Runaway(Exception):
+  pass
+
+
 class FakeUsb(object):
 
   def __init__(self, script):
@@ -53,6 +57,9 @@ class FakeUsb(object):
 
   def write(self, data, timeout_ms=None):
     self.written.append(data)
+    if len(self.written) > 20000:
+      # a transfer that does not end (more packets than any case needs): stop it, the observation says so
+      raise Runaway()
 
   def close(self):
     pass
@@ -130,9 +137,18 @@ def run_real(case):
           ret = cmds.download(tmpname, **kw)
         elif case.get('source') == 'nolen':
           ret = cmds.download(io.StringIO(img), **kw)
+        elif case.get('source') == 'nolenpos':
+          # a stream of unknown length whose container header the caller has already skipped: the image is what is
+          # left to read
+          f = io.StringIO('HEADER-17-BYTES!!' + img)
+          f.read(17)
+          ret = cmds.download(f, **kw)
         else:
           ret = cmds.download(io.StringIO(img), source_len=len(img), **kw)
       result = 'Rok:' + usbstub.hexs(ret) if isinstance(ret, str) else 'Rok:?'
+    except Runaway:
+      result = 'Rother:transfer-does-not-end'
+      del usb.written[64:]
     except ue.FastbootStateMismatchError:
       result = 'Rmismatch'
     except ue.FastbootRemoteFailureError as e:
@@ -263,7 +279,7 @@ def gen_cases(rng, tier):
       if tier == 'quick' and k % 3 != rng.randrange(3) and not (len(s) == 2 and s[0][0] == 'D' and s[1][0] == 'O'):
         continue
       cases.append({'kind': 'D', 'size': size, 'seed': k % 7, 'resps': s, 'kb': 1,
-                    'progress': [None, 'ok', 'raises'][k % 3], 'source': ['file', 'file', 'nolen', 'path'][k % 4]})
+                    'progress': [None, 'ok', 'raises'][k % 3], 'source': ['file', 'nolenpos', 'nolen', 'path'][k % 4]})
   # default chunk constant (1 MiB): a few large images
   for size in ([5, 70000] if tier == 'quick' else [5, 70000, 1024 * 1024 + 3]):
     cases.append({'kind': 'D', 'size': size, 'seed': 1, 'resps': [('I', 'x'), ('D', '%08x' % size), ('O', '')],
@@ -277,7 +293,7 @@ def gen_cases(rng, tier):
       cases.append({'kind': 'S', 'api': api, 'arg': arg, 'resps': s, 'kb': rng.choice([None, 1, 2])})
     else:
       cases.append({'kind': 'D', 'size': size, 'seed': rng.randrange(7), 'resps': s, 'kb': rng.choice([1, 1, 2]),
-                    'progress': rng.choice([None, 'ok', 'raises']), 'source': rng.choice(['file', 'nolen', 'path'])})
+                    'progress': rng.choice([None, 'ok', 'raises']), 'source': rng.choice(['file', 'nolen', 'path', 'nolenpos'])})
   return cases
 
 
